@@ -105,6 +105,7 @@ func bodyGatewaySleep(reps int) error {
 		// broker: answers and, once subscribed, publishes on its own
 		var bmu sync.Mutex
 		subscribed := make(chan struct{})
+		relPending := false
 		go func() {
 			buf := make([]byte, 0, 4096)
 			tmp := make([]byte, 4096)
@@ -134,7 +135,19 @@ func bodyGatewaySleep(reps int) error {
 					case refmqtt.PINGREQ:
 						mqBr.Write(refmqtt.EncPingresp())
 					case refmqtt.PUBREC:
-						mqBr.Write(refmqtt.EncPubrel(p.ID))
+						if p.ID == 99 { // phase A: withheld, so that the gateway's retry timer resends PUBREC meanwhile
+							if !relPending {
+								relPending = true
+								go func() {
+									time.Sleep(70 * time.Millisecond)
+									bmu.Lock()
+									mqBr.Write(refmqtt.EncPubrel(99))
+									bmu.Unlock()
+								}()
+							}
+						} else {
+							mqBr.Write(refmqtt.EncPubrel(p.ID))
+						}
 					}
 					bmu.Unlock()
 				}
@@ -175,6 +188,17 @@ func bodyGatewaySleep(reps int) error {
 		send(refsn.Pkt{Type: refsn.SUBSCRIBE, HasFlags: true, QoS: 2, MsgID: 2, Str: "w/#"})
 		recvUntil(refsn.SUBACK)
 		<-subscribed
+		// phase A: the retry timer of a broker QoS 2 exchange resends PUBREC to the broker while the MQTT-SN loop
+		// forwards the client's PINGREQs: two goroutines sending to the broker at once
+		bmu.Lock()
+		mqBr.Write(refmqtt.EncPublish("w/a", 2, false, false, 99, []byte("x")))
+		bmu.Unlock()
+		recvUntil(refsn.PUBLISH) // (REGISTER answered on the way; PUBREC sent by recvUntil)
+		for k := 0; k < 25; k++ {
+			send(refsn.Pkt{Type: refsn.PINGREQ})
+			time.Sleep(2 * time.Millisecond)
+		}
+		recvUntil(refsn.PUBREL)
 		send(refsn.Pkt{Type: refsn.DISCONNECT, HasDur: true, Duration: 5})
 		recvUntil(refsn.DISCONNECT)
 		var wg sync.WaitGroup
@@ -313,13 +337,16 @@ func TestRacePass(t *testing.T) {
 	}
 	dir, _ := os.MkdirTemp(os.Getenv("VERIF_SCRATCH"), "race")
 	defer os.RemoveAll(dir)
-	reps := "6"
+	reps := "10"
 	if explore.Tier() == "thorough" {
 		reps = "40"
 	}
 	cmd := exec.Command(os.Args[0], "-test.run", "^TestRaceBodies$", "-test.timeout", "20m")
 	cmd.Env = append(os.Environ(), "VERIF_RACE_BODY=1", "VERIF_RACE_REPS="+reps, "GORACE=halt_on_error=0 exitcode=0 log_path="+filepath.Join(dir, "race"))
 	out, err := cmd.CombinedOutput()
+	if err != nil && strings.Contains(string(out), "race detected during execution of test") && !strings.Contains(string(out), "panic:") {
+		err = nil // the testing package fails a test in which the detector reported races: that is the finding, not a harness problem
+	}
 	if err != nil || strings.Contains(string(out), "BODY-ERROR") || strings.Contains(string(out), "panic:") {
 		tail := string(out)
 		if len(tail) > 1500 {
